@@ -5,7 +5,7 @@ META = dict(
     technique="explicit-state BFS over stamp-advance/process/send/restart sequences on real exchanges vs a reference timer model, per timer configuration",
     text="For every exchange class (Exchanger, a minimal Exchangent subclass), stack kind (Stack, RemoteStack), timeout in {default, 0, 0.5, 1} and "
          "redo timeout in {default, 0, 0.25, 0.5, 1} under every redo keyword spelling the constructor declares, a fresh real exchange is created, started, "
-         "and driven by all sequences of operations (advance the stack stamp by 0/0.125/0.25/0.5/1 then process(); send a new message; start again, also after a timeout) "
+         "and driven by all sequences of operations (advance the stack stamp by 0/0.125/0.25/0.5/1 then process(); send / transmit / message either of two distinct messages; start again with either message, also after a timeout) "
          "with the stamp advanced by 0/0.125/0.375/0.75/3 between construction and start, "
          "explored breadth first with canonical-state dedupe to a fixpoint; after every operation the packets queued on the stack and the done/failed "
          "flags are compared with a plain reference model of the two timers.",
@@ -29,7 +29,9 @@ SPELLINGS = ("redoTimeout", "redoTimout")
 def ops_alphabet():
     ops = [("adv", d) for d in DELTAS]
     ops += [("send", m) for m in MSGS]
-    ops += [("start", "m1")]
+    ops += [("transmit", m) for m in MSGS]
+    ops += [("message", m) for m in MSGS]
+    ops += [("start", m) for m in MSGS]
     return ops
 
 
@@ -54,6 +56,12 @@ class Model:
         self.tx = m
         return [m]
 
+    transmit = send
+
+    def message(self, m):
+        self.tx = m
+        return ["msg:" + m]
+
     def adv(self, d):
         self.now += d
         if self.T > 0 and self.now >= self.tdead:
@@ -75,7 +83,10 @@ class Run:
         self.diverged = None       # (group, what)
         self.construct_error = None
         self.stack = stacking.Stack() if skind == "Stack" else stacking.RemoteStack()
-        self.device = devicing.Device(stack=self.stack, uid=7, name="peer", ha="peerha")
+        if skind == "Stack":
+            self.device = devicing.Device(stack=self.stack, uid=7, name="peer", ha="peerha")
+        else:       # RemoteStack.message() needs a destination remote
+            self.device = self.stack.addRemote(devicing.RemoteDevice(stack=self.stack, uid=7, name="peer", ha="peerha"))
         self.pk = {m: packeting.Packet(stack=self.stack, packed=m.encode("ascii")) for m in MSGS}
         self.label = {id(p): m for m, p in self.pk.items()}
 
@@ -116,7 +127,9 @@ class Run:
             pkt = item[0] if isinstance(item, tuple) else item
             out.append(self.label.get(id(pkt), repr(pkt)))
         while self.stack.txMsgs:
-            out.append("msg:%r" % (self.stack.txMsgs.popleft(),))
+            item = self.stack.txMsgs.popleft()
+            msg = item[0] if isinstance(item, tuple) else item
+            out.append("msg:" + self.label.get(id(msg), repr(msg)))
         return out
 
     def step(self, op):
@@ -130,6 +143,12 @@ class Run:
             elif kind == "send":
                 ex.send(self.pk[arg])
                 exp = self.model.send(arg)
+            elif kind == "transmit":
+                ex.transmit(self.pk[arg])
+                exp = self.model.transmit(arg)
+            elif kind == "message":
+                ex.message(self.pk[arg])
+                exp = self.model.message(arg)
             else:
                 if cls == "Exchanger":
                     ex.start(self.pk[arg])
@@ -163,7 +182,10 @@ class Run:
     def canon(self):
         ex = self.ex
         return (round(ex.timer.remaining, 6), bool(ex.timer.expired), round(ex.redoTimer.remaining, 6),
-                bool(ex.redoTimer.expired), bool(ex.done), bool(ex.failed), self.label.get(id(ex.tx)))
+                bool(ex.redoTimer.expired), bool(ex.done), bool(ex.failed), self.label.get(id(ex.tx)),
+                # the reference's view of the latest message is part of the state: an implementation that forgets a
+                # message must not get the two histories merged before the next retransmission shows the difference
+                self.model.tx)
 
 
 def cfg_str(cfg, spelled=True):
@@ -188,7 +210,7 @@ def work(cfg):
         if run.ex is None or run.diverged:
             return []
         if run.ex.done:
-            return [("start", "m1")]      # a finished (timed out) exchange may only be started again
+            return [("start", m) for m in MSGS]      # a finished (timed out) exchange may only be started again
         return ops
 
     def check(run, history):
@@ -207,7 +229,7 @@ def work(cfg):
             p.violation(group, "%s %s" % (cfg_str(cfg), hist_str(history)), what,
                         dict(config=cfg_str(cfg), ops_after_start=[list(o) for o in history],
                              how="construct at stamp 0, advance the stamp by the gap named in config (if any), start with message m1; 'adv d' = stack.stamper.stamp += d then exchange.process(); "
-                                 "'send m' = exchange.send(packet m); 'start m' = start again", divergence=what))
+                                 "'send|transmit|message m' = exchange.send/transmit/message(packet m); 'start m' = start again with packet m", divergence=what))
             return True
         if run.ex.failed:
             p.outcome("failed-at-timeout")
@@ -267,14 +289,15 @@ def run():
         "retransmits its latest message exactly once if the redo interval has elapsed since the start or the last retransmission (interval restarts at that call)",
         "a redo keyword spelling is only exercised if Exchange.__init__ declares it (redoTimeout, or the pinned tree's redoTimout)",
         "timeout and redo interval count from start() (also a second start() after a timeout), not from construction of the exchange object",
+        "the latest message is the one most recently passed to start/send/transmit/message; a retransmission re-queues that object as a packet",
         "send() of a new message does not restart the redo interval (as the code does; the statement is silent)",
         "Exchangent is exercised through a minimal subclass whose respond() sends .tx and stays open; after finish/fail the only operation explored is starting the exchange again",
         "stamps are dyadic so float comparison with deadlines is exact (Exchangent's default 0.1 redo interval never comes within 0.02 of a visited stamp)",
     ]
     return ck.finish(
         rule="per configuration (class x stack kind x timeout x redo x declared keyword spelling x construction-to-start gap in %r): BFS over all sequences of "
-             "{advance stamp by d then process() for d in %r, send(m1|m2), start again} from a started exchange, global dedupe on "
-             "(timer remaining/expired, redo remaining/expired, done, failed, latest message), to fixpoint or depth %d; "
+             "{advance stamp by d then process() for d in %r, send/transmit/message(m1|m2), start(m1|m2) again} from a started exchange, global dedupe on "
+             "(timer remaining/expired, redo remaining/expired, done, failed, latest message held by the exchange and by the reference), to fixpoint or depth %d; "
              "queue contents and flags compared with the reference after every operation" % (GAPS, DELTAS, MAX_DEPTH),
         exhaustive=True)
 
